@@ -341,6 +341,247 @@ pub mod capability_api {
     }
 }
 
+// ------------------------------------------------------------------ the constructors: which method, which URL
+/// http_types::Method (the nine the constructors name; every other method is `Other`)
+#[derive(PartialEq, Eq, Clone, Copy)]
+pub enum Method { Get, Head, Post, Put, Delete, Connect, Options, Trace, Patch, Other(u8) }
+#[verifier::external_body]
+pub struct Url { _p: u8 }
+/// what parsing a string as a URL gives (url crate: uninterpreted)
+pub uninterp spec fn url_parse_s(s: Seq<char>) -> Option<Url>;
+/// http_types::Request::new(method, url): a fresh request with exactly this method and URL (uninterpreted)
+pub uninterp spec fn req_new_s(m: Method, u: Url) -> HttpReq;
+// ASSUMED (`url.as_ref().parse().unwrap()`): the parsed URL; panics on a malformed one (documented: "# Panics")
+#[verifier::external_body]
+pub fn parse_url_or_panic(url: &str) -> (r: Url)
+    requires url_parse_s(url@) is Some,
+    ensures url_parse_s(url@) == Some(r),
+{ unimplemented!() }
+impl HttpReq {
+    // ASSUMED (http_types::Request::new)
+    #[verifier::external_body]
+    pub fn new(method: Method, url: Url) -> (r: HttpReq)
+        ensures r == req_new_s(method, url),
+    { unimplemented!() }
+}
+pub struct ExpectBytes;
+impl Request {
+//@extract id=Request::new file=crux_http/src/request.rs within="impl Request" item="fn new" props=C14
+//@expect pub fn new(method: Method, url: Url) -> Self
+//@sig pub fn new(method: Method, url: Url) -> (r: Self)
+//@contract
+        ensures r.req == req_new_s(method, url) && r.middleware is None, // [C14/Request::new/a-fresh-request-with-exactly-this-method-and-url-and-no-middleware]
+//@rule X7.path 1 s/http_types::Request::new\(/HttpReq::new(/
+//@end
+}
+/// the request a constructor must build for this method and URL string
+pub open spec fn fresh_request(m: Method, u: Url) -> Option<Request> { Some(Request { req: req_new_s(m, u), middleware: None }) }
+
+pub mod command_ctor {
+    use super::*;
+    use core::marker::PhantomData;
+    // hand-declared (types only): the real fields are PhantomData<fn() -> Event> and Box<dyn ResponseExpectation + Send>
+    pub struct RequestBuilder<Effect, Event> { pub req: Option<Request>, pub effect: PhantomData<Effect>, pub event: PhantomData<Event>, pub expectation: Box<ExpectBytes> }
+    pub struct Http<Effect, Event> { pub effect: PhantomData<Effect>, pub event: PhantomData<Event> }
+    impl<Effect, Event> RequestBuilder<Effect, Event> {
+//@extract id=command_ctor::new file=crux_http/src/command.rs within="impl<Effect, Event> RequestBuilder<Effect, Event, Vec<u8>>" item="fn new" props=C14
+//@expect pub(crate) fn new(method: Method, url: Url) -> Self
+//@sig pub fn new(method: Method, url: Url) -> (r: Self)
+//@contract
+            ensures r.req == fresh_request(method, url), // [C14/command_ctor-new/the-builder-starts-from-a-fresh-request-with-exactly-this-method-and-url]
+//@end
+    }
+    impl<Effect, Event> Http<Effect, Event> {
+//@extract id=command_ctor::get file=crux_http/src/command.rs within="impl<Effect, Event> Http<Effect, Event>" item="fn get" props=C14
+//@expect pub fn get(url: impl AsRef<str>) -> RequestBuilder<Effect, Event>
+//@sig pub fn get(url: &str) -> (r: RequestBuilder<Effect, Event>)
+//@contract
+            requires url_parse_s(url@) is Some,
+            ensures r.req == fresh_request(Method::Get, url_parse_s(url@)->Some_0), // [C14/command_ctor-get/a-GET-request-to-exactly-the-url-given]
+//@rule X7.parse-url 1 s/url\.as_ref\(\)\.parse\(\)\.unwrap\(\)/parse_url_or_panic(url)/
+//@end
+//@extract id=command_ctor::head file=crux_http/src/command.rs within="impl<Effect, Event> Http<Effect, Event>" item="fn head" props=C14
+//@expect pub fn head(url: impl AsRef<str>) -> RequestBuilder<Effect, Event>
+//@sig pub fn head(url: &str) -> (r: RequestBuilder<Effect, Event>)
+//@contract
+            requires url_parse_s(url@) is Some,
+            ensures r.req == fresh_request(Method::Head, url_parse_s(url@)->Some_0), // [C14/command_ctor-head/a-HEAD-request-to-exactly-the-url-given]
+//@rule X7.parse-url 1 s/url\.as_ref\(\)\.parse\(\)\.unwrap\(\)/parse_url_or_panic(url)/
+//@end
+//@extract id=command_ctor::post file=crux_http/src/command.rs within="impl<Effect, Event> Http<Effect, Event>" item="fn post" props=C14
+//@expect pub fn post(url: impl AsRef<str>) -> RequestBuilder<Effect, Event>
+//@sig pub fn post(url: &str) -> (r: RequestBuilder<Effect, Event>)
+//@contract
+            requires url_parse_s(url@) is Some,
+            ensures r.req == fresh_request(Method::Post, url_parse_s(url@)->Some_0), // [C14/command_ctor-post/a-POST-request-to-exactly-the-url-given]
+//@rule X7.parse-url 1 s/url\.as_ref\(\)\.parse\(\)\.unwrap\(\)/parse_url_or_panic(url)/
+//@end
+//@extract id=command_ctor::put file=crux_http/src/command.rs within="impl<Effect, Event> Http<Effect, Event>" item="fn put" props=C14
+//@expect pub fn put(url: impl AsRef<str>) -> RequestBuilder<Effect, Event>
+//@sig pub fn put(url: &str) -> (r: RequestBuilder<Effect, Event>)
+//@contract
+            requires url_parse_s(url@) is Some,
+            ensures r.req == fresh_request(Method::Put, url_parse_s(url@)->Some_0), // [C14/command_ctor-put/a-PUT-request-to-exactly-the-url-given]
+//@rule X7.parse-url 1 s/url\.as_ref\(\)\.parse\(\)\.unwrap\(\)/parse_url_or_panic(url)/
+//@end
+//@extract id=command_ctor::delete file=crux_http/src/command.rs within="impl<Effect, Event> Http<Effect, Event>" item="fn delete" props=C14
+//@expect pub fn delete(url: impl AsRef<str>) -> RequestBuilder<Effect, Event>
+//@sig pub fn delete(url: &str) -> (r: RequestBuilder<Effect, Event>)
+//@contract
+            requires url_parse_s(url@) is Some,
+            ensures r.req == fresh_request(Method::Delete, url_parse_s(url@)->Some_0), // [C14/command_ctor-delete/a-DELETE-request-to-exactly-the-url-given]
+//@rule X7.parse-url 1 s/url\.as_ref\(\)\.parse\(\)\.unwrap\(\)/parse_url_or_panic(url)/
+//@end
+//@extract id=command_ctor::connect file=crux_http/src/command.rs within="impl<Effect, Event> Http<Effect, Event>" item="fn connect" props=C14
+//@expect pub fn connect(url: impl AsRef<str>) -> RequestBuilder<Effect, Event>
+//@sig pub fn connect(url: &str) -> (r: RequestBuilder<Effect, Event>)
+//@contract
+            requires url_parse_s(url@) is Some,
+            ensures r.req == fresh_request(Method::Connect, url_parse_s(url@)->Some_0), // [C14/command_ctor-connect/a-CONNECT-request-to-exactly-the-url-given]
+//@rule X7.parse-url 1 s/url\.as_ref\(\)\.parse\(\)\.unwrap\(\)/parse_url_or_panic(url)/
+//@end
+//@extract id=command_ctor::options file=crux_http/src/command.rs within="impl<Effect, Event> Http<Effect, Event>" item="fn options" props=C14
+//@expect pub fn options(url: impl AsRef<str>) -> RequestBuilder<Effect, Event>
+//@sig pub fn options(url: &str) -> (r: RequestBuilder<Effect, Event>)
+//@contract
+            requires url_parse_s(url@) is Some,
+            ensures r.req == fresh_request(Method::Options, url_parse_s(url@)->Some_0), // [C14/command_ctor-options/a-OPTIONS-request-to-exactly-the-url-given]
+//@rule X7.parse-url 1 s/url\.as_ref\(\)\.parse\(\)\.unwrap\(\)/parse_url_or_panic(url)/
+//@end
+//@extract id=command_ctor::trace file=crux_http/src/command.rs within="impl<Effect, Event> Http<Effect, Event>" item="fn trace" props=C14
+//@expect pub fn trace(url: impl AsRef<str>) -> RequestBuilder<Effect, Event>
+//@sig pub fn trace(url: &str) -> (r: RequestBuilder<Effect, Event>)
+//@contract
+            requires url_parse_s(url@) is Some,
+            ensures r.req == fresh_request(Method::Trace, url_parse_s(url@)->Some_0), // [C14/command_ctor-trace/a-TRACE-request-to-exactly-the-url-given]
+//@rule X7.parse-url 1 s/url\.as_ref\(\)\.parse\(\)\.unwrap\(\)/parse_url_or_panic(url)/
+//@end
+//@extract id=command_ctor::patch file=crux_http/src/command.rs within="impl<Effect, Event> Http<Effect, Event>" item="fn patch" props=C14
+//@expect pub fn patch(url: impl AsRef<str>) -> RequestBuilder<Effect, Event>
+//@sig pub fn patch(url: &str) -> (r: RequestBuilder<Effect, Event>)
+//@contract
+            requires url_parse_s(url@) is Some,
+            ensures r.req == fresh_request(Method::Patch, url_parse_s(url@)->Some_0), // [C14/command_ctor-patch/a-PATCH-request-to-exactly-the-url-given]
+//@rule X7.parse-url 1 s/url\.as_ref\(\)\.parse\(\)\.unwrap\(\)/parse_url_or_panic(url)/
+//@end
+//@extract id=command_ctor::request file=crux_http/src/command.rs within="impl<Effect, Event> Http<Effect, Event>" item="fn request" props=C14
+//@expect pub fn request(method: Method, url: Url) -> RequestBuilder<Effect, Event>
+//@sig pub fn request(method: Method, url: Url) -> (r: RequestBuilder<Effect, Event>)
+//@contract
+            ensures r.req == fresh_request(method, url), // [C14/command_ctor-request/exactly-the-method-and-url-given]
+//@end
+    }
+}
+
+pub mod capability_ctor {
+    use super::*;
+    use core::marker::PhantomData;
+    /// crux_http::Http<Ev> (context + client: opaque)
+    #[verifier::external_body]
+    #[verifier::accept_recursive_types(Ev)]
+    pub struct Http<Ev> { _p: PhantomData<Ev> }
+    impl<Ev> Clone for Http<Ev> {
+        // ASSUMED (crux_http/src/lib.rs: Clone for Http clones context and client)
+        #[verifier::external_body]
+        fn clone(&self) -> (r: Self)
+            ensures r == *self,
+        { unimplemented!() }
+    }
+    #[verifier::external_body]
+    pub struct Client { _p: u8 }
+    pub enum CapOrClient<Event> { Client(Client), Capability(Http<Event>) }
+    // hand-declared (types only): the real fields are PhantomData<fn() -> Event> and Box<dyn ResponseExpectation + Send>
+    pub struct RequestBuilder<Event> { pub req: Option<Request>, pub cap_or_client: CapOrClient<Event>, pub phantom: PhantomData<Event>, pub expectation: Box<ExpectBytes> }
+    impl<Event> RequestBuilder<Event> {
+//@extract id=capability_ctor::new file=crux_http/src/request_builder.rs within="impl<Event> RequestBuilder<Event, Vec<u8>>" item="fn new" props=C14
+//@expect pub(crate) fn new(method: Method, url: Url, capability: crate::Http<Event>) -> Self
+//@sig pub fn new(method: Method, url: Url, capability: Http<Event>) -> (r: Self)
+//@contract
+            ensures r.req == fresh_request(method, url) && r.cap_or_client == CapOrClient::Capability(capability), // [C14/capability_ctor-new/the-builder-starts-from-a-fresh-request-with-exactly-this-method-and-url-sent-through-this-capability]
+//@end
+    }
+    impl<Ev> Http<Ev> {
+//@extract id=capability_ctor::get file=crux_http/src/lib.rs within="impl<Ev> Http<Ev>" item="fn get" props=C14
+//@expect pub fn get(&self, url: impl AsRef<str>) -> RequestBuilder<Ev>
+//@sig pub fn get(&self, url: &str) -> (r: RequestBuilder<Ev>)
+//@contract
+            requires url_parse_s(url@) is Some,
+            ensures r.req == fresh_request(Method::Get, url_parse_s(url@)->Some_0) && r.cap_or_client == CapOrClient::Capability(*self), // [C14/capability_ctor-get/a-GET-request-to-exactly-the-url-given]
+//@rule X7.parse-url 1 s/url\.as_ref\(\)\.parse\(\)\.unwrap\(\)/parse_url_or_panic(url)/
+//@end
+//@extract id=capability_ctor::head file=crux_http/src/lib.rs within="impl<Ev> Http<Ev>" item="fn head" props=C14
+//@expect pub fn head(&self, url: impl AsRef<str>) -> RequestBuilder<Ev>
+//@sig pub fn head(&self, url: &str) -> (r: RequestBuilder<Ev>)
+//@contract
+            requires url_parse_s(url@) is Some,
+            ensures r.req == fresh_request(Method::Head, url_parse_s(url@)->Some_0) && r.cap_or_client == CapOrClient::Capability(*self), // [C14/capability_ctor-head/a-HEAD-request-to-exactly-the-url-given]
+//@rule X7.parse-url 1 s/url\.as_ref\(\)\.parse\(\)\.unwrap\(\)/parse_url_or_panic(url)/
+//@end
+//@extract id=capability_ctor::post file=crux_http/src/lib.rs within="impl<Ev> Http<Ev>" item="fn post" props=C14
+//@expect pub fn post(&self, url: impl AsRef<str>) -> RequestBuilder<Ev>
+//@sig pub fn post(&self, url: &str) -> (r: RequestBuilder<Ev>)
+//@contract
+            requires url_parse_s(url@) is Some,
+            ensures r.req == fresh_request(Method::Post, url_parse_s(url@)->Some_0) && r.cap_or_client == CapOrClient::Capability(*self), // [C14/capability_ctor-post/a-POST-request-to-exactly-the-url-given]
+//@rule X7.parse-url 1 s/url\.as_ref\(\)\.parse\(\)\.unwrap\(\)/parse_url_or_panic(url)/
+//@end
+//@extract id=capability_ctor::put file=crux_http/src/lib.rs within="impl<Ev> Http<Ev>" item="fn put" props=C14
+//@expect pub fn put(&self, url: impl AsRef<str>) -> RequestBuilder<Ev>
+//@sig pub fn put(&self, url: &str) -> (r: RequestBuilder<Ev>)
+//@contract
+            requires url_parse_s(url@) is Some,
+            ensures r.req == fresh_request(Method::Put, url_parse_s(url@)->Some_0) && r.cap_or_client == CapOrClient::Capability(*self), // [C14/capability_ctor-put/a-PUT-request-to-exactly-the-url-given]
+//@rule X7.parse-url 1 s/url\.as_ref\(\)\.parse\(\)\.unwrap\(\)/parse_url_or_panic(url)/
+//@end
+//@extract id=capability_ctor::delete file=crux_http/src/lib.rs within="impl<Ev> Http<Ev>" item="fn delete" props=C14
+//@expect pub fn delete(&self, url: impl AsRef<str>) -> RequestBuilder<Ev>
+//@sig pub fn delete(&self, url: &str) -> (r: RequestBuilder<Ev>)
+//@contract
+            requires url_parse_s(url@) is Some,
+            ensures r.req == fresh_request(Method::Delete, url_parse_s(url@)->Some_0) && r.cap_or_client == CapOrClient::Capability(*self), // [C14/capability_ctor-delete/a-DELETE-request-to-exactly-the-url-given]
+//@rule X7.parse-url 1 s/url\.as_ref\(\)\.parse\(\)\.unwrap\(\)/parse_url_or_panic(url)/
+//@end
+//@extract id=capability_ctor::connect file=crux_http/src/lib.rs within="impl<Ev> Http<Ev>" item="fn connect" props=C14
+//@expect pub fn connect(&self, url: impl AsRef<str>) -> RequestBuilder<Ev>
+//@sig pub fn connect(&self, url: &str) -> (r: RequestBuilder<Ev>)
+//@contract
+            requires url_parse_s(url@) is Some,
+            ensures r.req == fresh_request(Method::Connect, url_parse_s(url@)->Some_0) && r.cap_or_client == CapOrClient::Capability(*self), // [C14/capability_ctor-connect/a-CONNECT-request-to-exactly-the-url-given]
+//@rule X7.parse-url 1 s/url\.as_ref\(\)\.parse\(\)\.unwrap\(\)/parse_url_or_panic(url)/
+//@end
+//@extract id=capability_ctor::options file=crux_http/src/lib.rs within="impl<Ev> Http<Ev>" item="fn options" props=C14
+//@expect pub fn options(&self, url: impl AsRef<str>) -> RequestBuilder<Ev>
+//@sig pub fn options(&self, url: &str) -> (r: RequestBuilder<Ev>)
+//@contract
+            requires url_parse_s(url@) is Some,
+            ensures r.req == fresh_request(Method::Options, url_parse_s(url@)->Some_0) && r.cap_or_client == CapOrClient::Capability(*self), // [C14/capability_ctor-options/a-OPTIONS-request-to-exactly-the-url-given]
+//@rule X7.parse-url 1 s/url\.as_ref\(\)\.parse\(\)\.unwrap\(\)/parse_url_or_panic(url)/
+//@end
+//@extract id=capability_ctor::trace file=crux_http/src/lib.rs within="impl<Ev> Http<Ev>" item="fn trace" props=C14
+//@expect pub fn trace(&self, url: impl AsRef<str>) -> RequestBuilder<Ev>
+//@sig pub fn trace(&self, url: &str) -> (r: RequestBuilder<Ev>)
+//@contract
+            requires url_parse_s(url@) is Some,
+            ensures r.req == fresh_request(Method::Trace, url_parse_s(url@)->Some_0) && r.cap_or_client == CapOrClient::Capability(*self), // [C14/capability_ctor-trace/a-TRACE-request-to-exactly-the-url-given]
+//@rule X7.parse-url 1 s/url\.as_ref\(\)\.parse\(\)\.unwrap\(\)/parse_url_or_panic(url)/
+//@end
+//@extract id=capability_ctor::patch file=crux_http/src/lib.rs within="impl<Ev> Http<Ev>" item="fn patch" props=C14
+//@expect pub fn patch(&self, url: impl AsRef<str>) -> RequestBuilder<Ev>
+//@sig pub fn patch(&self, url: &str) -> (r: RequestBuilder<Ev>)
+//@contract
+            requires url_parse_s(url@) is Some,
+            ensures r.req == fresh_request(Method::Patch, url_parse_s(url@)->Some_0) && r.cap_or_client == CapOrClient::Capability(*self), // [C14/capability_ctor-patch/a-PATCH-request-to-exactly-the-url-given]
+//@rule X7.parse-url 1 s/url\.as_ref\(\)\.parse\(\)\.unwrap\(\)/parse_url_or_panic(url)/
+//@end
+//@extract id=capability_ctor::request file=crux_http/src/lib.rs within="impl<Ev> Http<Ev>" item="fn request" props=C14
+//@expect pub fn request(&self, method: http_types::Method, url: Url) -> RequestBuilder<Ev>
+//@sig pub fn request(&self, method: Method, url: Url) -> (r: RequestBuilder<Ev>)
+//@contract
+            ensures r.req == fresh_request(method, url) && r.cap_or_client == CapOrClient::Capability(*self), // [C14/capability_ctor-request/exactly-the-method-and-url-given]
+//@end
+    }
+}
+
 } // verus!
 
 fn main() {}
